@@ -119,13 +119,20 @@ def make_S(kind, n, extra=None):
 # --------------------------------------------------------------------------- oracle
 
 
-def factor_nulls(fname, df, reuse):
+def factor_nulls(fname, df, reuse, clean=None):
     """N: union of the null positions of every evaluated factor (stand-alone evaluation)."""
+    from formulaic.transforms import TRANSFORMS
+
     N = set()
     for expr in FORMULAS[fname][1]:
         if reuse and expr in ("center(x)", "scale(x)"):
-            # state (mean / scale) was learnt on the null-free frame: value = (x - m) / s
-            N |= K.null_positions(df["x"])
+            # re-used spec: the transform's state was learnt on the null-free frame `clean`; evaluate the
+            # public transform function with that state (documented `_state` protocol of stateful transforms)
+            fn, state = TRANSFORMS[expr.split("(")[0]], {}
+            with warnings.catch_warnings():
+                warnings.simplefilter("ignore")
+                fn(clean["x"], _state=state)
+                N |= K.null_positions(fn(df["x"], _state=state))
         else:
             N |= K.null_positions(K.eval_factor(expr, df))
     return N
@@ -143,7 +150,7 @@ def run_one(case):
     df = K.build(K.frame_code(n, {"x": mx, "A": mA, "y": my}, ik, td))
     reuse = entry in REUSE
     clean = K.build(K.frame_code(n, {"x": 0, "A": 0, "y": 0}, ik, td), "df") if reuse else None
-    N = factor_nulls(fname, df, reuse)
+    N = factor_nulls(fname, df, reuse, clean)
     S = make_S(skind, n, extra)
     S0 = set(S) if S is not None else set()
     R = N | S0
@@ -292,7 +299,8 @@ def repro(case, clause):
     mx, mA, my = masks
     reuse = entry in REUSE
     df = K.build(K.frame_code(n, {"x": mx, "A": mA, "y": my}, ik, td))
-    N = sorted(factor_nulls(fname, df, reuse))
+    clean = K.build(K.frame_code(n, {"x": 0, "A": 0, "y": 0}, ik, td)) if reuse else None
+    N = sorted(factor_nulls(fname, df, reuse, clean))
     S = make_S(skind, n, extra)
     src = K.PRELUDE
     src += K.frame_code(n, {"x": mx, "A": mA, "y": my}, ik, td)
@@ -437,7 +445,7 @@ def run_bounded(ctx):
     ctx.assume(
         "A-C06-evaluated-factor: 'evaluated factor is null at row i' is decided by evaluating the factor "
         "expression stand-alone on the whole frame (public transform functions, pandas.isna); for a re-used "
-        "spec, center/scale are null exactly where x is null (state learnt on null-free data)",
+        "spec, center/scale are evaluated with the public transform function and the state it learns on the null-free frame",
         "A-C06-raise-caller-set: with na_action='raise' and all nulls inside the caller's drop set the guide and "
         "the statement disagree; either outcome is accepted",
         "A-C06-ignore-caller-set: with na_action='ignore' and a non-empty caller set the result must hold all "
